@@ -64,8 +64,11 @@ func c17(r *core.Run) {
 	r.NotDecided = []string{"'identical contents' beyond same value at write time", "history-level consistency (follows from the per-transition rules given T4)"}
 	r.Rule("C17/R1", "dual index: in every function, a Set (Delete) that reaches FilesByMerkle but not FilesByOwner (or vice versa) is paired on all paths with a Set (Delete) on the other index with identical arguments")
 	r.Rule("C17/R2", "list and record move together: each assignment to UnifiedFile.Proofs of a stored file is followed on all paths by a FileProof Set/Delete and a file save; file removal deletes a FileProof per listed key")
+	r.Rule("C17/R4", "records decoded on transaction/block paths go into a variable local to the invocation (never a captured variable with repeated fields): a reused decode target accumulates the prover lists of earlier files, and saving it stores provers that belong to other files")
 	r.Rule("C17/R3", "uniqueness and bound: appender calls on transaction paths are behind containsProver(...)=false; the append is behind Cmp(len(Proofs) < MaxProofs); FileProof records built for a file take Merkle/Owner/Start from the file")
 	funcs := consensusFuncs(p)
+	// ---- R4 a file that may be saved back is decoded into a fresh variable
+	staleDecodeTargets(r, "C17/R4", funcs)
 	// ---- R1
 	n1 := 0
 	singleSite := map[string]map[*ssa.Function]bool{"Set": {}, "Delete": {}}
